@@ -536,10 +536,19 @@ def gen_seq_list(rng):
                 keys.append([t, k])
                 prev = k
     out = []
+    # either one designated carrier (optionally duplicated identically), or one consistent signature timeline whose
+    # events are spread over the sequences (each event on a random non-empty subset; e.g. a piece whose accompaniment
+    # carries the opening signature and whose melody carries the later changes)
+    spread = n > 1 and rng.random() < 0.5
+    holders_t = [sorted(rng.sample(range(n), rng.randrange(1, n + 1))) for _ in tsigs]
+    holders_k = [sorted(rng.sample(range(n), rng.randrange(1, n + 1))) for _ in keys]
     for i in range(n):
         spec = music.gen_music(rng, max_notes=rng.choice([2, 5, 10]), channels=(rng.choice([0, 0, 1, 3]),), horizon=horizon,
                                sigs=False, extras=True, allow_empty=True)
-        if i == carrier or rng.random() < 0.2:
+        if spread:
+            spec["tsigs"] = [list(x) for x, h in zip(tsigs, holders_t) if i in h]
+            spec["keys"] = [list(x) for x, h in zip(keys, holders_k) if i in h]
+        elif i == carrier or rng.random() < 0.2:
             spec["tsigs"] = [list(x) for x in tsigs]
             spec["keys"] = [list(x) for x in keys]
         # events that write no MIDI message (program change) or a channel message (control change) between timed events
